@@ -864,6 +864,20 @@ func (p *NewForm) typecheckForm(gammaNameTypesCtx NamesTypesCtx, providerShadowN
 			functionSignatureType := types.CopyType(functionSignature.Type)
 			functionSignatureType = types.Unfold(functionSignatureType, labelledTypesEnv)
 
+			// If the new name is annotated with a type (x : A <- new f(...); ...), then the annotation
+			// has to be well formed and match the type provided by the function
+			if p.new_name_c.Type != nil && !new_name_reused {
+				types.AddMissingModalities(&p.new_name_c.Type, labelledTypesEnv)
+
+				if err := checkNameType(p.new_name_c, labelledTypesEnv); err != nil {
+					return TypeErrorf("invalid type for %s in %s: %s", p.new_name_c.String(), p.StringShort(), err)
+				}
+
+				if !types.EqualType(p.new_name_c.Type, functionSignatureType, labelledTypesEnv) {
+					return TypeErrorf("type of '%s' is '%s', but '%s' provides type '%s'", p.new_name_c.String(), p.new_name_c.Type.String(), callForm.String(), functionSignatureType.String())
+				}
+			}
+
 			// Check for declaration of independence: (Γ ⪰ m)
 			// Γ (gammaLeftNameTypesCtx) ⪰ m (type of p.continuation_c)
 			err := declationOfIndependence(gammaLeftNameTypesCtx.getNames(), functionSignatureType)
